@@ -228,8 +228,9 @@ HARNESSES = [
           ('append', _fx(same_url=False, compress=False, rollover=False, appending=True, nsessions=1, status_i=2, ct_i=1, nfields=0, lf_only=True)),
           ('bighdr', dict(_fx(same_url=False, compress=True, rollover=False, appending=False, nsessions=1, nfields=3, lf_only=False, cut=0), body="b'x'")),
           ('append_gz_roll', _fx(same_url=False, compress=True, rollover=True, appending=True, nsessions=2, status_i=0, ct_i=0, nfields=1, lf_only=False, cut=0)))],
-             'thorough': [{'tag': 'z%d_r%d_a%d_n%d' % (z, r, a, n), 'fix': _fx(compress=bool(z), rollover=bool(r), appending=bool(a), nsessions=n)}
-                          for z in (0, 1) for r in (0, 1) for a in (0, 1) for n in (1, 2)]},
+             'thorough': [{'tag': 'z%d_r%d_a%d_n%d' % (z, r, a, n), 'fix': _fx(compress=bool(z), rollover=bool(r), appending=bool(a), nsessions=n), 'pre': ['nfields <= 2']}
+                          for z in (0, 1) for r in (0, 1) for a in (0, 1) for n in (1, 2)]
+             + [{'tag': 'bighdr_z%d' % z, 'fix': dict(_fx(same_url=False, compress=bool(z), rollover=False, appending=False, nsessions=1, nfields=3, lf_only=False, cut=0), body="b'x'")} for z in (0, 1)]},
       timeout={'quick': 280, 'thorough': 2400},
       samples=[(b'a', False, False, False, 1, 0, 1, 1, False, 0, False), (b'', True, True, True, 2, 1, 2, 2, False, 0, False), (b'a', False, False, False, 2, 0, 1, 1, False, 0, True)], need=['one-file', 'rollover', 'appended'],
       funcs=['wpull/warc/recorder.py:WARCRecorder.write_record', 'wpull/warc/recorder.py:WARCRecorder._write_cdx_field',
